@@ -176,7 +176,7 @@ class Repo:
         # see through helper extraction (identity on a tree without such helpers)
         from .inline import normalise
         self.inline_notes = normalise(self.modules)
-        if self.inline_notes['inlined']:
+        if self.inline_notes['inlined'] or self.inline_notes.get('modules_absorbed'):
             for m in self.modules.values():
                 m.funcs.clear()
                 m.classes.clear()
